@@ -199,7 +199,7 @@ func c10Sig(cs c10Case, msg string) string {
 		return "panic-read-command-too-few-arguments"
 	case strings.HasPrefix(msg, "panic") && strings.Contains(msg, "tokensConsume"):
 		return "panic-query-lone-backquote"
-	case strings.HasPrefix(msg, "panic") && (strings.Contains(msg, "NewAggregate") || strings.Contains(msg, "mapcommand.go")):
+	case strings.HasPrefix(msg, "panic") && (strings.Contains(msg, "NewAggregate") || strings.Contains(msg, "mapcommand.go")) && strings.TrimSpace(strings.TrimPrefix(p, "map")) == "":
 		return "panic-map-empty-query"
 	case strings.HasPrefix(msg, "panic"):
 		// one signature per panic site
